@@ -86,7 +86,10 @@ def check_numbering(coarse, fine, all_atom, shared=None):
                     return 'numbering:atomname-format', {'node': i, 'atomname': nm, 'element': el}
                 names.append(nm)
             if len(set(names)) != len(names):
-                return 'numbering:atomname-duplicate', {'coarse': k, 'names': names}
+                dup = {nm for nm in names if names.count(nm) > 1}
+                via_shared = all(any(len(fine.nodes[i].get('fragid', [])) > 1 for i in g.nodes if fine.nodes[i].get('atomname') == nm)
+                                 for nm in dup)
+                return ('numbering:atomname-duplicate' + (':shared-atom' if via_shared else '')), {'coarse': k, 'names': names}
     return None
 
 
